@@ -204,6 +204,16 @@ def run(rep, wd, tier, seed):
                 data = struct.pack('>I', 40) + mti + bytes(bm) + b'0' * 60
                 traces.append(trace(len(traces), data, False, False, 'ascii', 'first bitmap uses unconfigured bit %d%s, message type %r' %
                                     (bit, '' if bit1 else ' (bit 1 off)', mti)))
+    # records whose bitmap is rendered as 32 hexadecimal characters (the iso8583 hex_bitmap option): read as an IPM file
+    # their first 16 bitmap bytes are ASCII characters, i.e. a bitmap that uses unconfigured elements
+    for enc in ('latin_1', 'cp500'):
+        for hm in ({'MTI': '1240', 'DE3': '123456'}, {'MTI': '1644', 'DE24': '697', 'DE71': 1}, {'MTI': '1240', 'DE2': '5' * 16, 'DE72': 'text ' * 40}):
+            rec = isoc.iso8583.dumps(dict(hm), encoding=enc, hex_bitmap=True)
+            for blocked in (False, True):
+                data = mciipm.vbs_list_to_bytes([rec] * 3, blocked=blocked)
+                traces.append(trace(len(traces), data, False, blocked, 'ascii', '%s records with a hexadecimal bitmap (%s), %s' % (
+                    enc, rec[4:36].decode('ascii'), '1014' if blocked else 'vbs')))
+            traces.append(trace(len(traces), struct.pack('>I', len(rec)) + rec[:35], False, False, 'ascii', 'input of 39 bytes with hexadecimal characters at 8..38'))
     # the configuration is changed at run time AFTER inspections have been made: element 7 configured, element 127 removed
     from cardutil import config as cfgmod
     saved = cfgmod.config['bit_config']
